@@ -23,6 +23,18 @@ theorem table_callFree :
     lockTable.all (fun p => (expand lockTable p.2).all (fun e => match e with | .call _ => false | _ => true)) = true := by
   decide
 
+/-- the functions that draw from the instance's generator: each must take the lock around its
+draws (directly, or through the locking function it calls) — a function that draws without an
+acquisition (e.g. from a generator that is not the shared, mutex-protected one) breaks this -/
+def drawingFunctions : List String :=
+  ["api::setup", "api::update_msk", "api::rekey", "api::generate_user_secret_key", "api::refresh_usk",
+   "api::recaps", "api::encaps", "api::decaps", "api::encrypt", "header::generate"]
+
+theorem drawing_functions_lock :
+    drawingFunctions.all (fun f => match lockTable.lookup f with
+      | some evs => (expand lockTable evs).contains .acq
+      | none => false) = true := by decide
+
 def callFree (evs : List LockEv) : Prop := ∀ e ∈ evs, ∀ f, e ≠ .call f
 
 /-- a well-nested, call-free event list alternates acquire / release -/
